@@ -31,7 +31,9 @@ def iteration_trace(aname, algo, env, pol, cb):
     with stubs.prng_stubs():
         tr = trace(lambda st, k: algo.iteration(st, key=k, callback=cb), st, jr.key(0), argnames=["st", "key"], label=f"{aname}.iteration")
     it = Interp()
-    S = tr.symbols(it)
+    # the declared spaces are static configuration of the environment / policy (and must stay valid boxes in a replay)
+    from props.common import concrete_spaces
+    S = tr.symbols(it, given=concrete_spaces(tr, it, st_env=env, st_policy=pol, st_target_policy=pol))
     out = tr.run(it, S)
     return tr, it, S, out
 
@@ -244,12 +246,15 @@ def check_sac(ck):
     envb = TimeLimit(UFEnv(Box(-jnp.ones(1), jnp.ones(1))), 3)
     cb = empty_callback()
     tau = 0.25
-    for f, autotune in ((2, True), (1, True), (2, False)) if not ck.thorough else ((2, True), (1, True), (3, True), (2, False), (3, False)):
-        algo = SAC(buffer_size=4, learning_starts=1, num_envs=1, num_steps=1, batch_size=2, q_width_size=2, q_depth=1, tau=tau, policy_frequency=f, autotune=autotune)
+    # (policy_frequency, autotune, num_envs, num_steps): the schedule is in ITERATIONS, whatever the number of environment steps per iteration
+    cfgs = ((2, True, 1, 1), (1, True, 1, 1), (2, False, 1, 1), (2, True, 2, 1)) if not ck.thorough else \
+        ((2, True, 1, 1), (1, True, 1, 1), (3, True, 1, 1), (2, False, 1, 1), (3, False, 1, 1), (2, True, 2, 1), (2, True, 1, 2), (3, True, 3, 1), (2, False, 2, 2))
+    for f, autotune, E, NS in cfgs:
+        algo = SAC(buffer_size=4 * E, learning_starts=1, num_envs=E, num_steps=NS, batch_size=2, q_width_size=2, q_depth=1, tau=tau, policy_frequency=f, autotune=autotune)
         pol = MLPSACPolicy(envb, feature_size=2, width_size=2, depth=1, key=jr.key(0))
         tr, it, S, out = iteration_trace("SAC", algo, envb, pol, cb)
-        cfg = f"f={f},autotune={autotune}"
-        if f == 2 and autotune:
+        cfg = f"f={f},autotune={autotune},E={E},S={NS}"
+        if f == 2 and autotune and E == 1:
             ck.encoded(tr)
         c0 = S["st_iteration_count"][()]
         A = [c0 >= 0] + stubs.contracts(it)
@@ -266,7 +271,7 @@ def check_sac(ck):
         bigq = [x for n in orc for x in out[n.replace("_target", "")].reshape(-1)]
         goal = conj([eq_arr(out[n], v) for n, v in orc.items()])
         ck.prove(f"sac.polyak_once@{cfg}", [c0 >= 0], core.abstract([goal], bigq)[0] if not isinstance(goal, bool) else goal, replay=replay_generic(tr, S, it, orc), timeout=120)
-        if f == 2 and autotune:
+        if f == 2 and autotune and E == 1:
             wrong = conj([eq_arr(out[n], np.array([o.add(o.mul(1 - t_, x), o.mul(t_, y)) for x, y in zip(out[n.replace('_target', '')].reshape(-1), S['st_' + n].reshape(-1))], dtype=object).reshape(S['st_' + n].shape)) for n in orc])
             ck.control("control.sac_tau_swapped", [c0 >= 0], core.abstract([wrong], bigq)[0])
         # gating: the actor, its optimiser state, the temperature and its optimiser state change only when count % f == 0
